@@ -157,6 +157,7 @@ struct Case
     int vd;    // extra rotation of operand b against operand a
     int vm;    // step of the rotation between neighbouring positions (1..10; 11 is prime, so every step is a permutation)
     int al;    // Alias form: AL_NONE, AL_CA (result object IS operand a), AL_CB, AL_AB (a and b one object), AL_CAB
+    int bo;    // alias form a:b only: operand b starts `bo` elements after operand a inside the one object (0 = same base pointer)
     int pl;    // placement: 0 = the default address of every array; 1..4 = every array starts at an address = 8*(pl-1) modulo 32
     int reent; // re-entrancy step: number of threads that execute the case concurrently on private data (0 = ordinary case)
 };
@@ -187,6 +188,7 @@ inline std::string casestr(const Case &c)
     if (c.al) t += fmt(" alias=%s", ALN[c.al]);
     if (c.reent) t += fmt(" reent=%d", c.reent);
     if (c.pl) t += fmt(" pl=%d", c.pl);
+    if (c.bo) t += fmt(" bo=%d", c.bo);
     return t;
 }
 inline std::string ipname(int pat) { return pat < NIP ? std::string(IPN[pat]) : fmt("g%d", pat - NIP); }
@@ -217,6 +219,7 @@ inline bool parse_casestr(const std::string &str, Case &c)
     if (c.vm < 1 || c.vm >= NBV) c.vm = 1;
     c.reent = (int)cu(m, "reent", 0);
     c.pl = (int)cu(m, "pl", 0);
+    c.bo = (int)cu(m, "bo", 0);
     c.al = AL_NONE;
     std::string al = cs(m, "alias", "-");
     for (int j = 1; j < NAL; j++)
@@ -233,7 +236,7 @@ inline bool is_huge(const Case &c)
     return false;
 }
 inline bool is_gapword(const Case &c) { return c.ip[0] >= NIP || c.ip[1] >= NIP || c.ip[2] >= NIP; }
-inline std::string sig_suffix(const Case &c) { return std::string(c.al ? ".alias" : "") + (is_huge(c) ? ".hugestride" : "") + (is_gapword(c) ? ".idxshape" : "") + (c.pl ? ".placed" : ""); }
+inline std::string sig_suffix(const Case &c) { return std::string(c.al ? ".alias" : "") + (is_huge(c) ? ".hugestride" : "") + (is_gapword(c) ? ".idxshape" : "") + (c.pl ? ".placed" : "") + (c.bo ? ".adjacent" : ""); }
 
 // ---------------------------------------------------------------- one case
 struct Counters
@@ -335,10 +338,11 @@ inline std::string run_case(const Case &c, Counters *cnt, std::string *sample = 
     }
     // slots that are one object: the object is as long as the longest extent any of them designates (the index lists of two
     // INPUT slots that share an object may differ, see alias_configs)
+    const u64 bshift = (c.al == AL_AB && c.bo > 0) ? (u64)c.bo : 0; // b's base pointer = a's base pointer + bshift
     for (int q = 1; q < 3; q++)
         if (root[q] != q && has_mem(opnd(s, q)) && has_mem(opnd(s, root[q])))
         {
-            u64 m = std::max(extq[q], extq[root[q]]);
+            u64 m = std::max(extq[q] + (q == 2 ? bshift : 0), extq[root[q]]);
             extq[q] = extq[root[q]] = m;
         }
     for (int q = 0; q < 3; q++)
@@ -349,8 +353,8 @@ inline std::string run_case(const Case &c, Counters *cnt, std::string *sample = 
         {
             // alias form: the same array object; the enumeration guarantees that both designate exactly the same positions
             if (extq[q] != extq[root[q]]) return "framework\talias form with different extents";
-            sl[q].len = sl[root[q]].len;
-            sl[q].base = sl[root[q]].base;
+            sl[q].len = sl[root[q]].len - (q == 2 ? bshift : 0);
+            sl[q].base = sl[root[q]].base + (q == 2 ? bshift : 0);
             sl[q].rng = sl[root[q]].rng;
             A.ptr[q] = sl[q].base;
             continue;
@@ -740,6 +744,31 @@ inline std::vector<std::array<std::pair<u64, int>, 3>> alias_configs(const Spec 
                     out.push_back(cfg);
                 }
     }
+    // two INPUT arrays may also be neighbouring parts of one object: b's base pointer 1, 2 or 3 elements after a's, every pair of
+    // strides from {unit, 3, 5} / index lists from {identity, scattered} -- a shortcut keyed on "b is next to a" must check the
+    // strides as well
+    if (al == AL_AB)
+    {
+        const Operand &oa = opnd(s, 1), &ob = opnd(s, 2);
+        auto geos = [&](const Operand &o) {
+            Axis g;
+            if (o.carrier == C_ARR_STRIDE) { g.push_back({(u64)o.kind, 0}); g.push_back({3, 0}); g.push_back({5, 0}); }
+            else if (o.carrier == C_ARR_IDX) { g.push_back({0, IP_IDENT}); g.push_back({0, IP_SCAT}); }
+            else if (o.carrier == C_ARR_UNIT) g.push_back({0, 0});
+            return g;
+        };
+        Axis ga = geos(oa), gb = geos(ob);
+        if (!ga.empty() && !gb.empty() && oa.kind == ob.kind)
+            for (int bo = 1; bo <= 3; bo++)
+                for (auto &x0 : fr[0])
+                    for (auto &xa : ga)
+                        for (auto &xb : gb)
+                        {
+                            if (xa.first < (u64)oa.kind && oa.carrier == C_ARR_STRIDE) continue;
+                            std::array<std::pair<u64, int>, 3> cfg = {x0, xa, std::pair<u64, int>{xb.first, xb.second | (bo << 16)}};
+                            out.push_back(cfg);
+                        }
+    }
     return out;
 }
 
@@ -774,8 +803,10 @@ inline void run_overload(int si, bool thorough, const char *prop)
                         if (s.b.kind == 0 && vd > 0) continue;                // one operand only: no relative rotation
                         if (al && !thorough && vd != 0 && vd != 5) continue; // reduced value passes for alias forms
                         Case c;
+                        memset(&c, 0, sizeof c);
                         c.si = si;
                         for (int q = 0; q < 3; q++) { c.s[q] = cfgs[ci][q].first; c.ip[q] = cfgs[ci][q].second; }
+                        if (al == AL_AB && (cfgs[ci][2].second >> 16)) { c.bo = cfgs[ci][2].second >> 16; c.ip[2] &= 0xFFFF; } // base offset of b rides in the upper half of its pattern field
                         c.vp = vp;
                         c.vd = vd;
                         c.vm = vm;
